@@ -59,6 +59,9 @@ type Case struct {
 	InFlight     Step   `json:"inflight"`
 	RaceStart    bool   `json:"racestart"`    // the honest party proposes its first update at the very moment its Channel.Watch registers the channel with the watcher
 	ReleaseEarly bool   `json:"releaseearly"` // the held message is released right after the registration call returned instead of after the system has become quiet
+	EventsLate   bool   `json:"eventslate"`   // the events caused by H's own refutation reach H only after the in-flight update has gone through
+	InFlightSub  bool   `json:"inflightsub"`  // the in-flight update is a payment in the open sub-channel
+	FinalLast    bool   `json:"finallast"`    // the newest agreed state is a final state that also moves funds
 	OldPick      int    `json:"oldpick"`      // which of M's enabled ledger transactions is registered
 	SubPick      int    `json:"subpick"`      // which earlier sub-channel transaction goes with it
 	Order        []int  `json:"order"`
@@ -102,6 +105,19 @@ func drawCase(t *rapid.T) Case {
 	c.InFlight = Step{Kind: "pay", Asset: rapid.IntRange(0, na-1).Draw(t, "ifasset"), Amount: uint64(rapid.IntRange(1, 15).Draw(t, "ifamount")), ToM: rapid.IntRange(0, 3).Draw(t, "iftom") == 0}
 	c.RaceStart = rapid.IntRange(0, 3).Draw(t, "racestart") == 0
 	c.ReleaseEarly = rapid.Bool().Draw(t, "releaseearly")
+	c.EventsLate = !c.ReleaseEarly && rapid.Bool().Draw(t, "eventslate")
+	c.InFlightSub = rapid.IntRange(0, 2).Draw(t, "inflightsub") == 0
+	c.FinalLast = c.During == "" && rapid.IntRange(0, 2).Draw(t, "finallast") == 0
+	if subOpen && rapid.IntRange(0, 2).Draw(t, "subfocus") == 0 {
+		// a sub-channel is open at the time of the attack: often aim the in-flight
+		// update at it and let the events of H's own refutation arrive late
+		c.During = rapid.SampledFrom([]string{"acc-held", "acc-held", "prop-held"}).Draw(t, "subduring")
+		c.InFlightSub, c.FinalLast = true, false
+		c.EventsLate = rapid.IntRange(0, 2).Draw(t, "subeventslate") != 0
+		if c.EventsLate {
+			c.ReleaseEarly = false
+		}
+	}
 	c.OldPick = rapid.IntRange(0, 40).Draw(t, "oldpick")
 	c.SubPick = rapid.IntRange(0, 40).Draw(t, "subpick")
 	switch rapid.IntRange(0, 2).Draw(t, "order") {
@@ -308,9 +324,24 @@ func runCase(c Case, known func(string) bool) *h.Outcome {
 		return fail("harness", "world did not become quiet before the attack")
 	}
 	subOpen := pr.Sub[0] != nil
+	if c.FinalLast && c.During == "" {
+		// the newest agreed state is final and moves funds to the honest party
+		by := c.Order[0]
+		amt := new(big.Int).SetUint64(c.InFlight.Amount)
+		mIdx := sim.Idx(pr.Ch[M])
+		if pr.Ch[by].State().Balances[c.InFlight.Asset][mIdx].Cmp(amt) < 0 {
+			amt = new(big.Int)
+		}
+		if err := pr.Update(by, pr.Ch[by], sim.Transfer(c.InFlight.Asset, mIdx, amt, true), true); err != nil {
+			return fail("harness-final", "honest final update failed: %v", err)
+		}
+		o.Class("newest-is-final")
+		pr.Env.Quiesce(10*time.Millisecond, sim.HangLimit)
+	}
 
 	// ---- the in-flight update, held back on the bus
 	var hold gate
+	inflightOnSub := false
 	inflightDone := make(chan error, 1)
 	during := c.During
 	if during != "" {
@@ -318,10 +349,16 @@ func runCase(c Case, known func(string) bool) *h.Outcome {
 		if c.InFlight.ToM {
 			to = M
 		}
-		if !affordable(pr.Ch, to^1, c.InFlight.Asset, c.InFlight.Amount) {
+		target, targetID := pr.Ch, ledgerID
+		if c.InFlightSub && subOpen && during != "handler-held" {
+			target, targetID = pr.Sub, pr.Sub[0].ID()
+			inflightOnSub = true
+		}
+		if !affordable(target, to^1, c.InFlight.Asset, c.InFlight.Amount) {
 			during = ""
+			inflightOnSub = false
 		} else {
-			nextV := pr.Ch[H].State().Version + 1
+			nextV := target[H].State().Version + 1
 			by := H
 			if during == "prop-held" || during == "handler-held" {
 				by = M
@@ -337,11 +374,14 @@ func runCase(c Case, known func(string) bool) *h.Outcome {
 				})
 				hold = hg
 			} else {
-				hold = pr.Env.Bus.Hold(busPred(during, ledgerID, nextV))
+				hold = pr.Env.Bus.Hold(busPred(during, targetID, nextV))
+			}
+			if inflightOnSub {
+				o.Class("inflight-on-sub-channel")
 			}
 
 			go func() {
-				inflightDone <- pay(pr, pr.Ch, by, to, c.InFlight.Asset, c.InFlight.Amount, 1500*time.Millisecond)
+				inflightDone <- pay(pr, target, by, to, c.InFlight.Asset, c.InFlight.Amount, 1500*time.Millisecond)
 			}()
 			select {
 			case <-hold.Caught():
@@ -398,6 +438,11 @@ func runCase(c Case, known func(string) bool) *h.Outcome {
 	if hold != nil && c.ReleaseEarly && during != "handler-held" {
 		L.HoldEvents(pr.P[H].Name)
 	}
+	eventsLate := hold != nil && c.EventsLate
+	if eventsLate {
+		L.HoldEventsOnRegisterBy(pr.P[H].Name)
+	}
+	refutedBeforeRelease := false
 	if err := pr.P[M].View.Register(regCtx, channel.AdjudicatorReq{Params: pr.Ch[M].Params(), Tx: old.tx, Idx: pr.Ch[M].Idx()}, subs); err != nil {
 		return fail("harness-register", "the reference ledger refused the adversary's registration of a genuinely signed state: %v", err)
 	}
@@ -409,6 +454,33 @@ func runCase(c Case, known func(string) bool) *h.Outcome {
 		} else {
 			// let the watcher and the client see the registration first, then let the update continue
 			pr.Env.Quiesce(20*time.Millisecond, sim.HangLimit)
+		}
+		if eventsLate {
+			// H's watcher has refuted (if it had to); the events of that refutation are
+			// still on their way when the in-flight update goes through
+			// ... provided the refutation raised the registered version of the very
+			// channel the in-flight update belongs to (only then a new registered event
+			// for that channel is on its way)
+			for _, cl := range L.Calls() {
+				if cl.Kind != "register" || cl.Err != "" || !cl.Changed || !strings.HasPrefix(cl.Who, pr.P[H].Name) {
+					continue
+				}
+				if !inflightOnSub && cl.Chan == ledgerID && cl.Version > old.tx.State.Version {
+					refutedBeforeRelease = true
+				}
+				if inflightOnSub {
+					sid := pr.Sub[0].ID()
+					for _, sg := range subs {
+						if sg.State.ID == sid && cl.Subs[sid] > sg.State.Version {
+							refutedBeforeRelease = true
+						}
+					}
+				}
+			}
+			o.Class("events-late")
+			if refutedBeforeRelease {
+				o.Class("events-late:after-own-refutation")
+			}
 		}
 		hold.Release()
 		select {
@@ -455,7 +527,11 @@ func runCase(c Case, known func(string) bool) *h.Outcome {
 	if reg.Reg.State.Version < newestH.State.Version {
 		msg := fmt.Sprintf("adversary registered v%d; the honest party's newest agreed state is v%d but v%d is registered when the system is quiet (challenge period still open, registered by %s)", old.tx.State.Version, newestH.State.Version, reg.Reg.State.Version, reg.Reg.By)
 		sig := "not-refuted:ledger-channel"
-		if newestH.State.Version > atReg.State.Version && reg.Reg.State.Version >= atReg.State.Version {
+		if refutedBeforeRelease {
+			// the registered event of H's own refutation reached the watcher after the
+			// newer state had been published: the watcher must refute once more
+			sig = "not-refuted:late-events:" + during
+		} else if newestH.State.Version > atReg.State.Version && reg.Reg.State.Version >= atReg.State.Version {
 			// everything H had agreed to at the time of the registration is registered,
 			// but H agreed to a newer state afterwards (update in flight) and that one is not
 			sig = "not-refuted:agreed-after-registration:" + during
@@ -480,7 +556,21 @@ func runCase(c Case, known func(string) bool) *h.Outcome {
 			return fail("not-refuted:sub-channel-unregistered", "sub-channel %s locked in the honest party's newest state has no registered state", sim.Describe(lk.ID))
 		}
 		if sr.Reg.State.Version < ns.State.Version {
-			return fail("not-refuted:sub-channel:"+during, "sub-channel %s: v%d is registered, the honest party's newest agreed state is v%d (adversary registered ledger channel v%d with sub-channel v%d)", sim.Describe(lk.ID), sr.Reg.State.Version, ns.State.Version, old.tx.State.Version, func() uint64 {
+			if at, ok := atRegSub[lk.ID]; ok && inflightOnSub && !refutedBeforeRelease && ns.State.Version > at.State.Version && sr.Reg.State.Version >= at.State.Version {
+				// the same known finding (F25) on the sub-channel: H agreed to the newer
+				// sub-channel state only after the registration
+				sig := "not-refuted:agreed-after-registration:" + during
+				if known(sig) {
+					o.Known = append(o.Known, h.Failf(sig, "sub-channel %s: v%d registered, newest v%d agreed after the registration", sim.Describe(lk.ID), sr.Reg.State.Version, ns.State.Version))
+					newestSub = at
+					continue
+				}
+			}
+			kind := "not-refuted:sub-channel:"
+			if refutedBeforeRelease {
+				kind = "not-refuted:late-events:sub:"
+			}
+			return fail(kind+during, "sub-channel %s: v%d is registered, the honest party's newest agreed state is v%d (adversary registered ledger channel v%d with sub-channel v%d)", sim.Describe(lk.ID), sr.Reg.State.Version, ns.State.Version, old.tx.State.Version, func() uint64 {
 				for _, s := range subs {
 					if s.State.ID == lk.ID {
 						return s.State.Version
